@@ -135,6 +135,12 @@ def run_case(ctx, case):
         check_fields(back, cls, fields, raw)
         if bytes(back) != raw:
             ctx.fail(case, f"{kind}: re-serialising the decoded message gives different bytes")
+        if kind in ("init", "stop", "open_epr"):
+            m.app_id = case["app_id"] ^ 0x55
+            again = M.deserialize_host_msg(bytes(m))
+            ctx.count("reserialised_after_update")
+            if again.app_id != case["app_id"] ^ 0x55:
+                ctx.fail(case, f"{kind}: after updating app_id the bytes still carry {again.app_id}")
         ctx.case(case, nontrivial=True)
         return
 
@@ -171,4 +177,16 @@ def run_case(ctx, case):
                 break
     if bytes(back) != raw:
         ctx.fail(case, f"{kind}: re-serialising the decoded message gives different bytes")
+    if kind == "ret_arr" and case["values"]:
+        # a message object whose fields are updated after it was framed once (len()/bytes()) must serialise
+        # its *current* field values
+        len(m)
+        newvals = [None if v is not None else 7 for v in case["values"]]
+        m.values[:] = newvals
+        m.address = case["address"] ^ 1
+        again = M.deserialize_return_msg(bytes(m))
+        ctx.count("reserialised_after_update")
+        if again.values != newvals or again.address != (case["address"] ^ 1):
+            ctx.fail(case, f"ret_arr: after updating the message fields, its bytes still carry the old values "
+                           f"({again.address}, {again.values[:6]})")
     ctx.case(case, nontrivial=True)
